@@ -6,12 +6,12 @@ fn unnest(path: &expression::Query, ctx: &mut Context) -> Resolved {
 
     match path.target() {
         expression::Target::External(prefix) => {
-            let root = ctx
-                .target()
-                .target_get(&OwnedTargetPath::root(*prefix))
-                .expect("must never fail")
-                .expect("always a value");
-            unnest_root(root, lookup_buf)
+            // A target may reject the read; like every other query, treat that (or a missing
+            // root) as a missing value instead of panicking.
+            match ctx.target().target_get(&OwnedTargetPath::root(*prefix)) {
+                Ok(Some(root)) => unnest_root(root, lookup_buf),
+                Ok(None) | Err(_) => unnest_root(&Value::Null, lookup_buf),
+            }
         }
         expression::Target::Internal(v) => {
             let value = ctx.state().variable(v.ident()).unwrap_or(&Value::Null);
